@@ -133,6 +133,9 @@ var registry = []Harness{
 	{Prop: "C13", Pkg: "deploy", Func: "VerifC13DivideFunds", Native: true, Unwind: 20,
 		Quick: [][]int{{1}, {2}, {3}, {7}}, Thorough: [][]int{{1}, {2}, {3}, {4}, {5}, {6}, {7}, {8}, {9}, {10}, {11}, {12}, {13}, {14}, {15}, {16}},
 		Bound: "native-Go mode (fixed-width integers): divideFundsEvenly for n = param receivers and every 64-bit amount"},
+	{Prop: "C13", Pkg: "deploy", Func: "VerifC13Codec", Native: true,
+		Quick: [][]int{{0}, {5}}, Thorough: [][]int{{0}, {1}, {5}, {32}},
+		Bound: "native-Go mode: sharedTransactionData for every value (20 symbolic sender bytes, every 32-bit validUntilBlock and nonce): layout, base64 round trip, checksum prefix round trip with a symbolic payload of param0 bytes, refusal of a 3-byte input; base64 and SHA-256 are environment (an encode/decode box; an injective function), binary.BigEndian by its definition"},
 	{Prop: "C13", Pkg: "deploy", Func: "VerifC13TxWindow", Native: true,
 		Bound: "native-Go mode: neoFSRuntimeTransactionModifier for every 32-bit height (two symbolic heights) and both invocation outcomes; actor.DefaultCheckerModifier stubbed by its documented contract (error iff state != HALT)"},
 	{Prop: "C16", Pkg: "proxy", Func: "VerifC16Gate", Link: []string{"alphabet", "audit", "balance", "container", "neofs", "neofsid", "netmap", "nns", "processing", "proxy", "reputation"},
